@@ -47,8 +47,32 @@ LargestWrong(o, id) ==
     /\ \/ \E i \in Assertions(o, id) : CtrLess(Get(o.snapF, id).ctr, EndOf(o, i)[1].d.ctr)
        \/ \A i \in Assertions(o, id) : EndOf(o, i)[1].d.ctr # Get(o.snapF, id).ctr
 
+\* C05 under concurrency.  The store API has no delete, so a credential held when the ceremonies began is held
+\* throughout: a registration whose non-empty exclude list names one held for its RP must be refused whatever the
+\* other ceremonies do, and an assertion is made with a credential of its RP (and of its allow list).
+ReqOf(o, i) == o.cers[i].req
+NoFaultsOf(o, i) == \A k \in 1..Len(o.cers[i].env.faults) : o.cers[i].env.faults[k] = 0
+ConsentOf(o, i) == \E k \in 1..Len(o.all) :
+                      /\ o.all[k].cer = i /\ o.all[k].ev = "Prompt" /\ o.all[k].d.ok
+                      /\ (ReqOf(o, i).up => o.all[k].d.pres) /\ (ReqOf(o, i).uv => o.all[k].d.verif)
+ExcludeHitOf(o, i) == LET r == ReqOf(o, i) IN
+                      r.excludeGiven /\ \E k \in 1..Len(r.exclude) :
+                          Has(o.snap0, r.exclude[k]) /\ Get(o.snap0, r.exclude[k]).rp = r.rp
+ExcludeIgnored(o) == \E i \in 1..N(o) :
+                        /\ o.cers[i].op = "mc" /\ EndOf(o, i) # <<>> /\ NoFaultsOf(o, i) /\ ConsentOf(o, i)
+                        /\ ExcludeHitOf(o, i) /\ EndOf(o, i)[1].d.err # 25
+ForeignAssertion(o) == \E i \in 1..N(o) :
+                          /\ o.cers[i].op = "ga" /\ Ok(o, i)
+                          /\ LET id == EndOf(o, i)[1].d.cred
+                                 r == ReqOf(o, i) IN
+                             \/ ~Has(o.snapF, id)
+                             \/ Get(o.snapF, id).rp # r.rp
+                             \/ (r.allowGiven /\ r.allow # <<>> /\ id \notin ToSet(r.allow))
+
 Violated(o) ==
-    (IF \E k \in 1..Len(o.all) : o.all[k].ev = "Deadlock" THEN {"C19.Deadlock"} ELSE {})
+    (IF o.final /\ ExcludeIgnored(o) THEN {"C05.ExcludedIff.Concurrent"} ELSE {})
+    \cup (IF o.final /\ ForeignAssertion(o) THEN {"C05.OwnRpAndAllowList.Concurrent"} ELSE {})
+    \cup (IF \E k \in 1..Len(o.all) : o.all[k].ev = "Deadlock" THEN {"C19.Deadlock"} ELSE {})
     \cup (IF \E k \in 1..Len(o.all) : o.all[k].ev = "Crash" THEN {"Any.Crash"} ELSE {})
     \cup (IF o.final /\ o.cfg.storeKind # "slot" /\
              \E i \in 1..N(o) : o.cers[i].op = "mc" /\ Ok(o, i) /\ ~Has(o.snapF, EndOf(o, i)[1].d.cred)
